@@ -368,6 +368,30 @@ func c14Positions(c *ev.Ctx, u *c14Universe, posDepth int) (st c14PosStats) {
 	}
 	isoSum := posDepth - 1 // isolated one-position programs for the pairs (S,T) with depth(S)+depth(T) <= isoSum
 	X := expr(posDepth)
+	// one level deeper for pure alias/definition chains over Zahl and Text (first alias / first definition at
+	// every level): alias of alias of definition, definition of alias of alias, … — the shapes in which
+	// declaration-time shortcuts through chains of named types show
+	if posDepth+1 < len(u.depthEnd) {
+		firstSibling := func(i int) bool {
+			for j := 0; j < i; j++ {
+				if nodes[j].spec.Op == nodes[i].spec.Op && nodes[j].spec.Parent == nodes[i].spec.Parent {
+					return false
+				}
+			}
+			return true
+		}
+		for i := u.depthEnd[posDepth]; i < u.depthEnd[posDepth+1]; i++ {
+			ok := nodes[i].src != ""
+			j := i
+			for ok && (nodes[j].spec.Op == "A" || nodes[j].spec.Op == "D") {
+				ok = firstSibling(j)
+				j = nodes[j].spec.Parent
+			}
+			if ok && nodes[j].spec.Op == "prim" && (nodes[j].spec.P == 0 || nodes[j].spec.P == 5) {
+				X = append(X, i)
+			}
+		}
+	}
 	// pairs of total depth > posDepth get the short program (value taken from the variable only)
 	lean := func(si, ti int) bool { return nodes[si].term.Depth+nodes[ti].term.Depth > posDepth }
 	c.Set("position_types_expressible", len(X))
